@@ -21,6 +21,7 @@ func init() {
 		Run: runC30,
 		Controls: []Control{
 			{Name: "interface-addresses-deduplicated-after-the-length-was-taken", File: "protocols/isis/packet/tlv_ip_interface_addresses.go", Old: "\t\taddrs = append(addrs, pfx.Addr().ToUint32())\n", New: "\t\tif len(addrs) > 0 && addrs[len(addrs)-1] == pfx.Addr().ToUint32() {\n\t\t\tcontinue\n\t\t}\n\t\taddrs = append(addrs, pfx.Addr().ToUint32())\n", Expect: "declared-length-counts-what-is-stored"},
+			{Name: "fits-test-adds-in-one-octet", File: "protocols/isis/packet/tlv_extended_is_reachability.go", Old: "\treturn int(e.TLVLength)+ExtendedISReachabilityNeighborMinLen+int(n.SubTLVLength) <= math.MaxUint8\n", New: "\treturn int(e.TLVLength+ExtendedISReachabilityNeighborMinLen+n.SubTLVLength) <= math.MaxUint8\n", Expect: "bound-test-sees-the-wide-sum"},
 			{Name: "hostname-reader-trims-padding", File: "protocols/isis/packet/tlv_dynamic_hostname.go", Old: "\t\treturn nil, fmt.Errorf(\"unable to decode fields: %v\", err)\n\t}\n\n\treturn pdu, nil\n", New: "\t\treturn nil, fmt.Errorf(\"unable to decode fields: %v\", err)\n\t}\n\tpdu.Hostname = bytes.TrimRight(pdu.Hostname, \"\\x00\")\n\n\treturn pdu, nil\n", Expect: "reader-stores-what-it-read"},
 			{Name: "snp-remaining-count-not-decreased", File: "protocols/isis/packet/csnp.go", Old: "\t\tleft -= end\n", New: "", Expect: "snp-chunks-cover-the-list"},
 			{Name: "snp-entries-in-a-single-tlv", File: "protocols/isis/packet/csnp.go", Old: "\t\ttlvs := NewLSPEntriesTLVs(entries)\n", New: "\t\ttlvs := []TLV{NewLSPEntriesTLV(entries)}\n", Expect: "tlv-length-fits-octet"},
@@ -42,6 +43,7 @@ func isisScope(f *core.Fn) bool {
 }
 
 func runC30(c *core.Ctx) {
+	boundTestSeesTheWideSum(c, "bound-test-sees-the-wide-sum", "protocols/isis/packet", "protocols/isis/server")
 	readersStoreWhatTheyRead(c)
 	declaredLengthCountsWhatIsStored(c)
 	decoderAcceptsEncoderLengths(c)
